@@ -265,10 +265,13 @@ Section Handler.
 
   (* ---------------------------------------------------------------- clocked runner *)
 
+  Inductive rerr := REof | RReset | ROther.   (* io.EOF / ECONNRESET / anything else a Read may return *)
+
   Inductive action :=
   | ASetDeadline (d : N)            (* clientConn.SetDeadline(now + timeout) *)
   | ARead (t : N) (n : nat)         (* a Read returned n bytes at instant t *)
   | ATimeout (t : N)                (* a Read returned the deadline error at instant t *)
+  | AReadErr (t : N) (e : rerr)     (* a Read returned another error at instant t: the peer closed or reset *)
   | ASleep (t d : N)                (* time.Sleep(d) started at t: the connection is not read *)
   | AClearDeadline                  (* wrapped.SetDeadline(time.Time{}) *)
   | AMarkActive (r : reginfo)       (* regManager.MarkActive(reg) *)
@@ -318,6 +321,27 @@ Section Handler.
 
   Definition run (D : N) (tracked : nat) (ts : list tid) (script : list (N * bytes)) : list action :=
     ASetDeadline D :: run_script D 0%N (init tracked ts) script.
+
+  (* the same when the peer ends its script itself: at instant tf (after its last chunk) it closes
+     (FIN) or resets the connection, so the Read that follows its data returns an error instead of
+     waiting for the deadline.  Every Read-error branch of the loop returns; io.Copy into
+     io.Discard returns on the error too (on EOF with a nil error): the handler returns at once. *)
+  Fixpoint run_script_end (D now : N) (st : hstate) (script : list (N * bytes)) (tf : N) (e : rerr) : list action :=
+    match script with
+    | [] => if (D <=? tf)%N then [ATimeout D; AReturn D]
+            else [AReadErr (N.max now tf) e; AReturn (N.max now tf)]
+    | (t, c) :: rest =>
+      if (D <=? t)%N then [ATimeout D; AReturn D]
+      else let now' := N.max now t in
+           let '(st', tr, unread) := feed_now (length c) now' st c in
+           match st' with
+           | HDecided cs buf => tr ++ finish D now' cs buf unread
+           | _ => tr ++ run_script_end D now' st' rest tf e
+           end
+    end.
+
+  Definition run_end (D : N) (tracked : nat) (ts : list tid) (script : list (N * bytes)) (tf : N) (e : rerr) : list action :=
+    ASetDeadline D :: run_script_end D 0%N (init tracked ts) script tf e.
 
   (* observables of a trace *)
   Definition read_by (tr : list action) (tau : N) : nat :=
